@@ -297,17 +297,21 @@ func (p *parser) parseSelection() ast.Selection {
 	p.enter()
 
 	if t := p.peek(); t.Token != token.PUNCTUATOR || t.Value != "..." {
-		return p.parseField()
+		ret := p.parseField()
+		p.exit()
+		return ret
 	}
 	ellipsis := p.peek().Position
 	p.consumeToken()
 
 	if t := p.peek(); t.Token == token.NAME && t.Value != "on" {
-		return &ast.FragmentSpread{
+		ret := &ast.FragmentSpread{
 			FragmentName: p.parseName(),
 			Directives:   p.parseOptionalDirectives(),
 			Ellipsis:     ellipsis,
 		}
+		p.exit()
+		return ret
 	}
 
 	ret := &ast.InlineFragment{
